@@ -132,6 +132,17 @@ class _InlineMixin:
         r = super().mcall(recv, m, args, e, ev)
         if r is not NotImplemented:
             return r
+        if m == "into" and not args and isinstance(recv, tuple) and recv and recv[0] in ("enum", "struct"):
+            # a conversion defined in the crate: `impl From<Src> for Dst` (used when exactly one such impl exists for the source type)
+            src = recv[1].split("::")[0] if recv[0] == "enum" else recv[1]
+            cands = []
+            for mod_ in self.ctx.rspirv.modules():
+                for im in self.ctx.rspirv.items(mod_, "impl"):
+                    tr = (im.get("trait") or "").replace(" ", "")
+                    if tr.split("::")[-1].startswith("From<") and lastseg(strip_generics(tr[tr.index("<") + 1:tr.rindex(">")])) == src:
+                        cands += [x for x in im["items"] if x.get("kind") == "fn" and x["name"] == "from"]
+            if len(cands) == 1:
+                return self.inline(cands[0], [recv])
         if isinstance(recv, tuple) and recv and recv[0] == "enum" and "::" in recv[1] and m not in self.NO_INLINE:
             meth, free, consts = _index(self.ctx)
             c = meth.get((recv[1].split("::")[0], m), [])
